@@ -376,8 +376,8 @@ theorem parses_cop (o : COp) (h : o.WF) (k : List Tok) : Parses gComposedOperand
     have hrc : rp.kind ≠ Kind.Comment := by rw [hrp]; decide
     have hann : Parses optAnn (rp :: k) (rp :: k) Tree.none :=
       Parses.s_opt_none (Fails.ref (n := nAnnotations) (Fails.map (Fails.seq1 (Fails.tok (by rw [hrp]; decide) hrc))))
-    have hfail : FailsAt gEnumVariant (rp :: k) (rp :: k) :=
-      FailsAt.map (FailsAt.seqL (pre := [optAnn]) (ParsesList.cons hann ParsesList.nil) (FailsAt.tok (by rw [hrp]; decide) hrc))
+    have hfail : SFailsAt gEnumVariant (rp :: k) (rp :: k) :=
+      SFailsAt.map (SFailsAt.seqL (pre := [optAnn]) (ParsesList.cons hann ParsesList.nil) (SFailsAt.tok (by rw [hrp]; decide) hrc))
     have hlist : Parses (sepListCtx gEnumVariant nEnumRec) (rp :: k) (rp :: k) (Tree.list []) :=
       (Parses.map (Parses.s_dep_no (Parses.s_recover_silent hfail) rfl)).s_to rfl
     exact Parses.alt2 (fails_typeBasic lp _ (by rw [hlp]; decide) (by rw [hlp]; decide))
@@ -485,7 +485,7 @@ theorem parses_type (ty : Ty) (h : ty.WF) (k : List Tok) (hk : YStop k) : Parses
     have hopt (rest : List Tok) : ∃ v, Parses (.recover .silentAt gRefOptions) (optRefToks opts ++ t :: rest) (t :: rest) v := by
       cases opts with
       | none =>
-        exact ⟨_, Parses.s_recover_silent (FailsAt.seqL (pre := []) ParsesList.nil (FailsAt.tok (by rw [ht]; decide) htc))⟩
+        exact ⟨_, Parses.s_recover_silent (SFailsAt.seqL (pre := []) ParsesList.nil (SFailsAt.tok (by rw [ht]; decide) htc))⟩
       | some o =>
         obtain ⟨lb, first, orest, rb⟩ := o
         obtain ⟨hlb, hf, hor, hrb⟩ := hopts _ rfl
@@ -727,10 +727,10 @@ theorem parses_paramlist (ps : ParamList) (h : ps.WF) (k : List Tok) : Parses (.
   | empty lp rp =>
     obtain ⟨hlp, hrp⟩ := h
     have hnc : rp.kind ≠ Kind.Comment := by rw [hrp]; decide
-    have hfail : FailsAt gParamDecl (rp :: k) (rp :: k) :=
-      FailsAt.map (FailsAt.seqL (pre := [.opt (toks [Kind.Const, Kind.Var, Kind.InOut])])
+    have hfail : SFailsAt gParamDecl (rp :: k) (rp :: k) :=
+      SFailsAt.map (SFailsAt.seqL (pre := [.opt (toks [Kind.Const, Kind.Var, Kind.InOut])])
         (ParsesList.cons (Parses.s_opt_none (Fails.toks (by rw [hrp]; decide) hnc)) ParsesList.nil)
-        (FailsAt.toks (by decide) (by rw [hrp]; decide +kernel) hnc))
+        (SFailsAt.toks (by decide) (by rw [hrp]; decide +kernel) hnc))
     have hlist : Parses (sepListCtx gParamDecl nParamRec) (rp :: k) (rp :: k) (Tree.list []) :=
       (Parses.map (Parses.s_dep_no (Parses.s_recover_silent hfail) rfl)).s_to rfl
     have hin := Parses.s_prepend (s := "Failed to parse param list decl: ")
@@ -2911,21 +2911,7 @@ theorem Prog.wfb_iff (p : Prog ε) : Prog.wfb X p = true ↔ Prog.WF X p := by
 /-! ## the instance for `Ex`: what is needed beyond `expr_roundtrip` -/
 
 theorem fails_dotops_nonident (t : Tok) (k : List Tok) (hni : t.kind ∉ identKinds) (hc : t.kind ≠ Kind.Comment) :
-    Fails (.ref nDotOps) (t :: k) := by
-  have hid := fails_identifier t k hni hc
-  have hmc : Fails (.ref nMethodCall) (t :: k) :=
-    Fails.ref (n := nMethodCall) (Fails.memo (c := 2)
-      (Fails.map (Fails.seqL (pre := []) ParsesList.nil hid)))
-  have haa : Fails gArrayAccess (t :: k) := Fails.map (Fails.seqL (pre := []) ParsesList.nil hid)
-  have hop : Fails gDotOp (t :: k) :=
-    Fails.altL (gs := [.ref nMethodCall, gArrayAccess, .ref nIdentifier]) (by
-      intro a ha
-      simp only [List.mem_cons, List.not_mem_nil, or_false] at ha
-      rcases ha with rfl | rfl | rfl
-      · exact hmc
-      · exact haa
-      · exact hid)
-  exact Fails.ref (n := nDotOps) (Fails.map (Fails.seq1 hop))
+    Fails (.ref nDotOps) (t :: k) := (failsAt_dotOps t k hni hc).fails
 
 /-- an expression whose first token is not identifier-like is not taken for an assignment -/
 theorem noAssign_of_first (ets k : List Tok)
@@ -2954,5 +2940,91 @@ theorem lhs_of_dotops (ets : List Tok) (t : Tree)
     (h : ∀ k, Stop 0 k → Parses (.ref nDotOps) (ets ++ k) k t) (op : Tok) (r : List Tok) (hop : op.kind ∈ assignOps) :
     Parses (.ref nDotOps) (ets ++ op :: r) (op :: r) t :=
   h (op :: r) (by intro t' r' e; cases e; exact (assign_table _ hop).1)
+
+/-! ### `Ex`: which expressions `parse_assignment` leaves alone -/
+
+/-- `parse_dot_ops` on a well-formed chain (`chain_roundtrip` of `Props/C06Expr.lean`) -/
+theorem parses_chain (e : Ex) (hc : e.isChain = true) (h : e.WF 0) (k : List Tok) (hk : StopD k) :
+    Parses (.ref nDotOps) (e.toks ++ k) k e.tree :=
+  pd1_of_pd2 e ((invEx e).chain h hc).1 k hk
+
+theorem chain_wf0 : (e : Ex) → (L : Nat) → e.isChain = true → e.WF L → e.WF 0
+  | .atom _, _, _, h => h
+  | .dot _ _ _, _, _, h => h
+  | .call _ _ _ _, _, _, h => by simpa [Ex.WF] using h
+  | .index _ _ _ _, _, _, h => by simpa [Ex.WF] using h
+  | .paren _ _ _, _, hc, _ => by simp [Ex.isChain, Ex.isElem] at hc
+  | .bin _ _ _, _, hc, _ => by simp [Ex.isChain, Ex.isElem] at hc
+  | .pre _ _, _, hc, _ => by simp [Ex.isChain, Ex.isElem] at hc
+  | .post _ _, _, hc, _ => by simp [Ex.isChain, Ex.isElem] at hc
+  | .set _ _ _, _, hc, _ => by simp [Ex.isChain, Ex.isElem] at hc
+
+theorem assign_sbad : ∀ x ∈ assignOps, x ∈ sbad := by decide +kernel
+theorem assign_badD : ∀ x ∈ assignOps, x ∉ badD := by decide +kernel
+theorem post_not_assign : ∀ x ∈ postKinds, x ∉ assignOps := by decide +kernel
+theorem unaryPre_not_ident : ∀ x ∈ unaryPre, x ∉ identKinds ∧ x ≠ Kind.Comment := by decide +kernel
+theorem literal_not_ident : ∀ x ∈ literalKinds, x ∉ identKinds ∧ x ≠ Kind.Comment := by decide +kernel
+
+theorem fails_assign_first (t : Tok) (r : List Tok) (hni : t.kind ∉ identKinds) (hc : t.kind ≠ Kind.Comment) :
+    Fails gAssignment (t :: r) :=
+  Fails.map (Fails.seqL (pre := []) ParsesList.nil (fails_dotops_nonident t r hni hc))
+
+/-- a chain, then something that is not an assignment operator -/
+theorem fails_assign_chain (e : Ex) (hc : e.isChain = true) (h : e.WF 0) (rest : List Tok) (hs : StopD rest)
+    (hn : ∀ t r, rest = t :: r → t.kind ∉ assignOps) : Fails gAssignment (e.toks ++ rest) := by
+  have hp := parses_chain e hc h rest hs
+  have hf : Fails (toks assignOps) rest := by
+    cases rest with
+    | nil => exact Fails.toks_nil
+    | cons t r => exact Fails.toks (hn t r rfl) (fun e' => hs t r rfl (by rw [e']; decide +kernel))
+  exact Fails.map (Fails.seqL (pre := [.ref nDotOps]) (ParsesList.cons hp ParsesList.nil) hf)
+
+theorem stop_down : ∀ {L : Nat} {k : List Tok}, Stop L k → Stop 0 k
+  | 0, _, h => h
+  | _+1, _, h => stop_down h.mono
+
+/-- **the executable test `Ex.naB` is sound**: before any continuation that cannot extend a chain (and, if the
+    expression IS a chain, does not start with an assignment operator) `parse_assignment` fails, silently -/
+theorem na_sound : (e : Ex) → (L : Nat) → L ≤ 8 → e.WF L → e.naB = true → ∀ rest : List Tok, StopD rest →
+    (e.isChain = true → ∀ t r, rest = t :: r → t.kind ∉ assignOps) → Fails gAssignment (e.toks ++ rest)
+  | .atom t, _, _, h, _, rest, hs, hn => by
+    rcases h with h | h
+    · exact fails_assign_chain (.atom t) (by simp [Ex.isChain, Ex.isElem, h]) (Or.inl h) rest hs
+        (hn (by simp [Ex.isChain, Ex.isElem, h]))
+    · exact fails_assign_first t rest (literal_not_ident _ h).1 (literal_not_ident _ h).2
+  | .paren lp e rp, _, _, h, _, rest, _, _ => by
+    exact fails_assign_first lp _ (by rw [h.1]; decide +kernel) (by rw [h.1]; decide)
+  | .pre op e, _, _, h, _, rest, _, _ => by
+    exact fails_assign_first op _ (unaryPre_not_ident _ h.1).1 (unaryPre_not_ident _ h.1).2
+  | .set lb as rb, _, _, h, _, rest, _, _ => by
+    exact fails_assign_first lb _ (by rw [h.1]; decide +kernel) (by rw [h.1]; decide)
+  | .dot l d r, L, _, h, _, rest, hs, hn => by
+    have hc : (Ex.dot l d r).isChain = true := by simp [Ex.isChain, h.2.1, h.2.2.1]
+    exact fails_assign_chain _ hc (chain_wf0 _ L hc h) rest hs (hn hc)
+  | .call f lp as rp, L, _, h, _, rest, hs, hn => by
+    have hc : (Ex.call f lp as rp).isChain = true := rfl
+    exact fails_assign_chain _ hc (chain_wf0 _ L hc h) rest hs (hn hc)
+  | .index a lb e rb, L, _, h, _, rest, hs, hn => by
+    have hc : (Ex.index a lb e rb).isChain = true := rfl
+    exact fails_assign_chain _ hc (chain_wf0 _ L hc h) rest hs (hn hc)
+  | .post e op, _, _, h, _, rest, _, _ => by
+    obtain ⟨hop, hc, hw⟩ := h
+    have := fails_assign_chain e hc hw (op :: rest) (stopD_of_kind op rest (postKinds_table _ hop).1)
+      (by intro t r e'; cases e'; exact post_not_assign _ hop)
+    simpa [Ex.toks] using this
+  | .bin l op r, L, h8, h, hna, rest, hs, _ => by
+    obtain ⟨h1, hL, hl, hr⟩ := h
+    have hop := opLevel_mem op.kind h1
+    have hle := opLevel_le op.kind
+    have hsd : StopD (op :: (r.toks ++ rest)) :=
+      (stop_down (ops_stop (opLevel op.kind) h1 hle op (r.toks ++ rest) hop)).stopD
+    by_cases hcl : l.isChain = true
+    · have hopn : op.kind ∉ assignOps := by simpa [Ex.naB, hcl] using hna
+      have := fails_assign_chain l hcl (chain_wf0 l _ hcl hl) (op :: (r.toks ++ rest)) hsd
+        (by intro t r' e; cases e; exact hopn)
+      simpa [Ex.toks, List.append_assoc] using this
+    · have hna' : l.naB = true := by simpa [Ex.naB, hcl] using hna
+      have := na_sound l (opLevel op.kind) hle hl hna' (op :: (r.toks ++ rest)) hsd (fun h => absurd h hcl)
+      simpa [Ex.toks, List.append_assoc] using this
 
 end Gold.C06
